@@ -47,9 +47,10 @@ class Guard:
     def __exit__(self, *exc):
         exempt_ids = {id(self.args[i]) for i in self.exempt if i < len(self.args)}
         for i, a in enumerate(self.args):
-            if i in self.exempt or id(a) in exempt_ids:
-                continue
             d = diff(self.before[i], snap(a))
+            if i in self.exempt or id(a) in exempt_ids:
+                # the documented in-place target: its contents may change, its shape / dtype / strides / flags may not
+                d = ",".join(w for w in (d or "").split(",") if w and w != "bytes") or None
             if d:
                 self.changed.append((i, d))
         for k, v in self.kwargs.items():
